@@ -289,6 +289,9 @@ def run(ctx):
     # believe it already owns
     from .c17 import semlock_forgets_ownership_in_a_forked_child
     semlock_forgets_ownership_in_a_forked_child(ctx, 'R15.6')
+    # the generated wrapper class / property is cached under what it was generated from
+    from .generic import memo_key_covers_inputs
+    memo_key_covers_inputs(ctx, 'R15.7', ['sharedctypes'], floor=2)
     r15_1(ctx)
     r15_2(ctx)
     r15_3(ctx)
